@@ -57,6 +57,15 @@ def decode(data: bytes):
     return {"channel": channel, "text": text, "expect": expect, "number": number}
 
 
+def _strip_number(text):
+    """drop what the value parser's numeric prefix takes: its regex `\\d` (and float()) accept every Unicode decimal digit,
+    e.g. Arabic-Indic or NKo digits (found by the fuzzer: '0<NKo 7>InchesPer100Yd' is 7 in/100yd)"""
+    i = 0
+    while i < len(text) and (text[i].isdigit() or text[i] in ".-"):
+        i += 1
+    return text[i:]
+
+
 def oracle(case):
     """-> list of (key, message); the C18 parsing clauses"""
     import py_ballisticcalc as pb
@@ -127,8 +136,8 @@ def oracle(case):
             out.append((f"C18:fuzz:_parse_value:wrong-unit:{expect}", f"_parse_value({s!r}) = {q!r}"))
         elif expect is None and not is_slot and q is not None and low and low[:1] not in "0123456789.-" and not any(
                 # (the value parser documents that it drops all blanks, so 'Li ne' is the name 'Line')
-                low.replace(" ", "").lstrip("0123456789.") == n.lower().replace(" ", "") for n, _, _ in names) \
-                and low.replace(" ", "") not in slots:
+                _strip_number(low.replace(" ", "")) == n.lower().replace(" ", "") for n, _, _ in names) \
+                and _strip_number(low.replace(" ", "")) not in slots:
             out.append(("C18:fuzz:_parse_value:unknown-name-accepted", f"_parse_value({s!r}) = {q!r}"))
     return out
 
